@@ -301,6 +301,7 @@ func (df *DataFile) readToBuf(blockID uint32, offset uint32, buf *bytebufferpool
 	block := getBuf()
 	defer putBuf(block)
 	fileSize := df.Size()
+	first := true
 	for {
 		// 当前 block 绝对偏移量
 		off := int64(blockID) * blockSize
@@ -326,6 +327,12 @@ func (df *DataFile) readToBuf(blockID uint32, offset uint32, buf *bytebufferpool
 		if err != nil {
 			return err
 		}
+		// chunk 类型序列校验: 记录只能以 Full/First 开始, 后续只能是 Middle/Last
+		// (如文件曾在记录中间的 block 边界处被截断后又继续追加, 残留的 First 之后会紧跟其他记录的 chunk)
+		if first != (chunkType == Full || chunkType == First) {
+			return ErrInvalidCRC
+		}
+		first = false
 		buf.B = append(buf.B, data...)
 		// last chunk
 		if chunkType == Full || chunkType == Last {
@@ -418,6 +425,10 @@ func (reader *DataReader) next() ([]byte, *DataPos, error) {
 		data, chunkType, err := DecodeChunk(reader.blockBuf[reader.offset:size])
 		if err != nil {
 			return nil, nil, err
+		}
+		// chunk 类型序列校验: 记录只能以 Full/First 开始, 后续只能是 Middle/Last
+		if (cnt == 0) != (chunkType == Full || chunkType == First) {
+			return nil, nil, ErrInvalidCRC
 		}
 		res = append(res, data...)
 		cnt++
